@@ -26,3 +26,59 @@ package smtp
 //@ func smtp.Client.StartTLS
 //@   requires[C19:wf] cwf(c)
 //@   ensures[C19:bal] cwf(c) && csock(c) == old(csock(c)) && livebal(csock(c)) == old(livebal(csock(c)))
+
+// ---------------------------------------------------------------------------
+// C17  Every network operation is bounded by the configured timeout
+// (reduction: a deadline is armed on the transport before every blocking operation)
+//
+//@ func smtp.NewClient (conn, host) (c, err)
+//@   requires[C17:armed] conn != nil && conn.sock.armed
+//@   ensures[C17:armed] err == nil ==> carm(c) && clink(c)
+//@ func smtp.Client.cmd
+//@   requires[C17:armed] carm(c)
+//@ func smtp.Client.hello
+//@   requires[C17:armed] c != nil && (c.didHello || carm(c))
+//@   ensures[C17:hello] c.didHello
+//@ func smtp.Client.ehlo
+//@   requires[C17:armed] carm(c)
+//@ func smtp.Client.helo
+//@   requires[C17:armed] carm(c)
+//@ func smtp.Client.Hello
+//@   requires[C17:armed] carm(c)
+//@   ensures[C17:hello] r0 == nil ==> c.didHello
+//@ func smtp.Client.Extension
+//@   requires[C17:armed] c != nil && (c.didHello || carm(c))
+//@   ensures[C17:hello] c.didHello
+//@ func smtp.Client.StartTLS
+//@   requires[C17:armed] carm(c) && clink(c)
+//@   ensures[C17:armed] carm(c) && clink(c) && (old(c.didHello) ==> c.didHello)
+//@ func smtp.Client.Auth
+//@   requires[C17:armed] carm(c)
+//@   ensures[C17:hello] old(c.didHello) ==> c.didHello
+//@ func smtp.Client.Verify
+//@   requires[C17:armed] carm(c)
+//@   ensures[C17:hello] old(c.didHello) ==> c.didHello
+//@ func smtp.Client.Mail
+//@   requires[C17:armed] carm(c)
+//@   ensures[C17:hello] old(c.didHello) ==> c.didHello
+//@ func smtp.Client.Rcpt
+//@   requires[C17:armed] carm(c)
+//@ func smtp.Client.Data
+//@   requires[C17:armed] carm(c)
+//@ func smtp.Client.Reset
+//@   requires[C17:armed] carm(c)
+//@   ensures[C17:hello] old(c.didHello) ==> c.didHello
+//@ func smtp.Client.Noop
+//@   requires[C17:armed] carm(c)
+//@   ensures[C17:hello] old(c.didHello) ==> c.didHello
+//@ func smtp.Client.Quit
+//@   requires[C17:armed] carm(c)
+//@   ensures[C17:hello] old(c.didHello) ==> c.didHello
+//@ func smtp.Client.UpdateDeadline
+//@   requires[C17:link] clink(c)
+//@   ensures[C17:armed] r0 == nil ==> carm(c)
+//@   ensures[C17:kept] old(carm(c)) ==> carm(c)
+//@ func smtp.dataCloser.Write
+//@   requires[C17:armed] d != nil && carm(d.c)
+//@ func smtp.dataCloser.Close
+//@   requires[C17:armed] d != nil && carm(d.c)
